@@ -65,7 +65,11 @@ def mk_aux(a, rng, sizes=REP):
         cb['ins'][0]['sig'] = bytes(sg)
     return btc.auxpow(cb, rng.randbytes(32), [rng.randbytes(32) for _ in range(a['b1'])], rng.randrange(2 ** 32),
                       [rng.randbytes(32) for _ in range(a['b2'])], rng.randrange(2 ** 32),
-                      btc.header(rng.randrange(2 ** 32), rng.randbytes(32), rng.randbytes(32), rng.randrange(2 ** 32), 0x1d00ffff, rng.randrange(2 ** 32)))
+                      # the parent header is opaque as well: versions of real parents (1, 2, BIP9), of the merged-mined coins themselves
+                      # (chain id 1 = namecoin, 0x62 = dogecoin in bits 16..31, AuxPoW flag 0x100) and arbitrary ones
+                      btc.header(rng.choice([1, 2, 0x20000000, 0x00010101, 0x00620102, 0x00010100, 0x00620004, 0x00010000 | rng.randrange(2 ** 16),
+                                             0x00620000 | rng.randrange(2 ** 16), rng.randrange(2 ** 32)]),
+                                 rng.randbytes(32), rng.randbytes(32), rng.randrange(2 ** 32), 0x1d00ffff, rng.randrange(2 ** 32)))
 
 
 def mk_block(rec, rng, prev=None, sizes=REP, t=None):
